@@ -134,6 +134,46 @@ func (c *Ctx) panicDischargers(r *Report, reach map[*ssa.Function]bool) []panicD
 			}
 			return "INV-LEX (0 ≤ start ≤ pos ≤ len(input); established by LEX-WRITE, LEX-DEPTH and LEX-TOK on this run)", true
 		},
+		// INV-LEX for single-byte reads: input[pos] under pos < len(input), input[pos-1] under pos > 0
+		func(c *Ctx, r *Report, s *panicSite, atoms []Atom) (string, bool) {
+			if lr.Err != "" || s.kind != "idx" || !isLexMethod(s.fn) {
+				return "", false
+			}
+			var x, idx ssa.Value
+			switch in := s.in.(type) {
+			case *ssa.Index:
+				x, idx = in.X, in.Index
+			case *ssa.Lookup:
+				x, idx = in.X, in.Index
+			default:
+				return "", false
+			}
+			recv := c.key(s.fn.Params[0], nil)
+			in, pos := recv+"."+lr.InputF.Name(), recv+"."+lr.PosF.Name()
+			if c.key(x, nil) != in {
+				return "", false
+			}
+			need := ""
+			switch c.key(idx, nil) {
+			case pos:
+				if !hasAtom(atoms, pos+"<len("+in+")") {
+					return "", false
+				}
+				need = "0 ≤ pos"
+			case "(" + pos + " - 1)":
+				if !hasAtom(atoms, pos+">0") {
+					return "", false
+				}
+				need = "pos ≤ len(input)"
+			default:
+				return "", false
+			}
+			if ok, why := c.invLEX(); !ok {
+				r.note("INV-LEX does not hold: %s", why)
+				return "", false
+			}
+			return "dominating bound together with INV-LEX (" + need + "; established by LEX-WRITE, LEX-DEPTH and LEX-TOK on this run)", true
+		},
 		// VAL-AGREE: the validator of the same operator establishes what the renderer asserts
 		func(c *Ctx, r *Report, s *panicSite, atoms []Atom) (string, bool) {
 			ops, isRenderer := rops[s.fn]
@@ -307,8 +347,45 @@ func (c *Ctx) panicDischargers(r *Report, reach map[*ssa.Function]bool) []panicD
 		// LIST-CTX: the List branch of the general constructor
 		func(c *Ctx, r *Report, s *panicSite, atoms []Atom) (string, bool) {
 			general := c.pkgFunc(pkgExpr, "Expr")
+			siteKey := s.key
 			if s.fn != general {
-				return "", false
+				// the element conversion written as a function literal handed to a mapping helper together
+				// with left.([]any): judged at the place in the constructor where the literal is used
+				if s.fn.Parent() != general || len(s.fn.Params) != 1 {
+					return "", false
+				}
+				ta, isTA := s.in.(*ssa.TypeAssert)
+				if !isTA || c.resolve(ta.X, nil) != ssa.Value(s.fn.Params[0]) {
+					return "", false
+				}
+				var use *ssa.Call
+				for _, b := range general.Blocks {
+					for _, in := range b.Instrs {
+						for _, op := range in.Operands(nil) {
+							v := *op
+							if mc, ok := v.(*ssa.MakeClosure); ok {
+								v = mc.Fn
+							}
+							if v == ssa.Value(s.fn) {
+								call, isCall := in.(*ssa.Call)
+								if !isCall || use != nil {
+									return "", false
+								}
+								use = call
+							}
+						}
+					}
+				}
+				if use == nil {
+					return "", false
+				}
+				siteKey = ""
+				for _, a := range use.Call.Args {
+					if k := c.key(a, nil); strings.HasSuffix(k, ".([]any)") {
+						siteKey = k + "["
+					}
+				}
+				atoms = c.atomsAt(use)
 			}
 			isList := false
 			for _, a := range atoms {
@@ -316,7 +393,7 @@ func (c *Ctx) panicDischargers(r *Report, reach map[*ssa.Function]bool) []panicD
 					isList = true
 				}
 			}
-			if !isList || !strings.Contains(s.key, ".([]any)[") {
+			if !isList || !strings.Contains(siteKey, ".([]any)[") {
 				return "", false
 			}
 			// every in-module construction of a List node passes exactly one []*Expression, so
